@@ -293,7 +293,9 @@ fn obs_queries(store: &AnnotationStore, pool: &[String]) -> Sx {
 /// STAM JSON of the whole store (stand-off members appear as @include), text validation, counters,
 /// the configuration switches
 fn obs_misc(store: &AnnotationStore) -> Sx {
-    let json = guard(|| match store.to_json_string(store.config()) {
+    // (the store's own config says CBOR by now; the JSON serialiser only takes the layout from the
+    // config it is given, the @include decisions come from the members' own configurations)
+    let json = guard(|| match store.to_json_string(&Config::default()) {
         Ok(s) => l(vec![a(1), a(s.len() as i64), a(s.matches("@include").count() as i64), digest(&text(&s))]),
         Err(_) => err_sx(),
     })
@@ -338,7 +340,22 @@ fn obs_misc(store: &AnnotationStore) -> Sx {
         a(c.milestone_interval() as i64),
         b(c.strip_temp_ids()),
     ]);
-    l(vec![json, val, perann, counts, cfg])
+    // temporary ids (!A0, !R0 ...) resolve through the resolve_temp_ids flag of the id maps
+    let temp = guard(|| {
+        let mut v = Vec::new();
+        for h in 0..3 {
+            v.push(store.annotation(format!("!A{}", h).as_str()).map(|x| a(x.handle().as_usize() as i64)).unwrap_or(a(-1)));
+            v.push(store.resource(format!("!R{}", h).as_str()).map(|x| a(x.handle().as_usize() as i64)).unwrap_or(a(-1)));
+            v.push(store.dataset(format!("!S{}", h).as_str()).map(|x| a(x.handle().as_usize() as i64)).unwrap_or(a(-1)));
+        }
+        for set in store.datasets() {
+            v.push(set.key("!K0").map(|x| a(x.handle().as_usize() as i64)).unwrap_or(a(-1)));
+            v.push(set.annotationdata("!D0").map(|x| a(x.handle().as_usize() as i64)).unwrap_or(a(-1)));
+        }
+        l(v)
+    })
+    .unwrap_or_else(panic_sx);
+    l(vec![json, val, perann, counts, cfg, temp])
 }
 
 
